@@ -7,6 +7,6 @@ CONSTANTS CasesFile
 
 GenInit ==
   /\ ndJsonSerialize(CasesFile, <<Universe>>)
-  /\ case = [id |-> ""] /\ stack = <<>> /\ ctxs = <<>> /\ issues = <<>> /\ dest = EmptyF /\ ev = NoEv /\ done = TRUE
+  /\ case = [id |-> "", pre |-> 0] /\ stack = <<>> /\ ctxs = <<>> /\ issues = <<>> /\ dest = EmptyF /\ ev = NoEv /\ done = TRUE
 GenNext == UNCHANGED vars
 =============================================================================
